@@ -35,3 +35,9 @@ Definition judge_form (k : c06form) : N :=
     | None => if same then J_OK else J_DRIFT
     end
   end.
+
+(* the serialisation method of an Encoding Object: what Encoding.SerializationMethod returned against enc_method *)
+Record c06enc := mkEnc { en_style : string; en_explode : option bool; gn_style : string; gn_explode : bool }.
+Definition judge_enc (k : c06enc) : N :=
+  let m := enc_method (en_style k) (en_explode k) in
+  if String.eqb (fst m) (gn_style k) && Bool.eqb (snd m) (gn_explode k) then J_OK else J_DRIFT.
